@@ -71,7 +71,7 @@ func (h *Hist) scoutVisits(i, opt int) ([]int, bool) {
 			zc.OnAttach = fns
 		}
 	}
-	_ = JS(scout[i], OptionsFor(opt, scout, i))
+	_ = JSOpt(opt, scout, i)
 	var out []int
 	for j := range hit {
 		out = append(out, j)
@@ -126,7 +126,7 @@ func (h *Hist) ConvR(i, opt int, o *hx.Out) {
 	if len(after) > 0 {
 		g += "r" + strings.Join(after, ",")
 	}
-	h.Steps = append(h.Steps, fmt.Sprintf("%d conv %d %s %s %s %s 0 ToJSONSchema@%s", i, opt, dtok, metaTok, l.Snap.BagState, l.Snap.ValState, shortType(l.S)))
+	h.Steps = append(h.Steps, fmt.Sprintf("%d conv %d %s %s %s %s %s ToJSONSchema@%s", i, opt, dtok, metaTok, l.Snap.BagState, l.Snap.ValState, h.wtok(), shortType(l.S)))
 	h.Verd = append(h.Verd, fmt.Sprintf("%s:%s", same, idx(changed)))
 	h.Strct = append(h.Strct, g)
 	h.Names = append(h.Names, fmt.Sprintf("conv(%d,opt%d)", i, opt))
